@@ -231,7 +231,10 @@ func drawPlan(t *simrt.Tape, failPct, profile int, registry, timed bool) plan {
 	return p
 }
 
-func drawPhases(t *simrt.Tape, tier string, registry bool) []*phase {
+// lazy: some breaker of the run is not created by the harness but by the first lookups of its
+// name (firstuse_test.go): the first phase then has several clients and is a mixed or a
+// sustained-failure phase.
+func drawPhases(t *simrt.Tape, tier string, registry, lazy bool) []*phase {
 	maxPhases, maxSingle, maxMulti := 3, 80, 25
 	if tier == "thorough" {
 		maxPhases, maxSingle, maxMulti = 5, 150, 50
@@ -257,8 +260,14 @@ func drawPhases(t *simrt.Tape, tier string, registry bool) []*phase {
 				ph.kind = phMixed
 			}
 		}
+		if lazy && i == 0 && ph.kind != phSustained {
+			ph.kind = phMixed
+		}
 		clients := 1
 		if t.Intn(3) == 2 {
+			clients = t.Range(2, 6)
+		}
+		if lazy && i == 0 && clients == 1 {
 			clients = t.Range(2, 6)
 		}
 		switch ph.kind {
@@ -395,28 +404,69 @@ func body(r *simrt.Run, tier string) {
 	}
 	w := &world{r: r}
 	registry := t.Chance(1, 4)
-	phases := drawPhases(t, tier, registry)
+	// who creates the breakers of the run's names: the harness up front, or the first calls
+	fu := drawFirstUse(t, registry)
+	phases := drawPhases(t, tier, registry, fu.anyLazy())
+	ws := []*world{w}
+	for i := 0; i < fu.nSide(); i++ {
+		ws = append(ws, &world{r: r})
+	}
+	if fu.nSide() > 0 {
+		// now and then a call of a mixed phase goes to one of the side names
+		for _, ph := range phases {
+			if ph.kind != phMixed {
+				continue
+			}
+			for ci := range ph.plans {
+				for j := range ph.plans[ci] {
+					if t.Intn(8) == 7 {
+						ph.plans[ci][j].ident = 1 + t.Intn(fu.nSide())
+					}
+				}
+			}
+		}
+	}
+	if fu.anyLazy() {
+		// every name that comes into being by first use, and every side name, is called by
+		// several clients at the start of the first phase
+		var idx []int
+		for k := range ws {
+			if fu.lazy[k] || k > 0 {
+				idx = append(idx, k)
+			}
+		}
+		addFirstUse(t, phases[0], idx)
+		fu.drawHolders(t, len(phases[0].plans))
+	}
 	// the breaker is not created at the bubble's epoch
 	if off := t.Intn(4); off > 0 {
 		r.Sleep(time.Duration(t.Range(1, 999_999_999)))
 	}
-	// creation must be an instant (the slots are aligned to it)
-	for try := 0; ; try++ {
-		runCounter++
-		w.name = fmt.Sprintf("c01-breaker-%d", runCounter)
-		a := time.Now()
-		if registry {
-			w.b = breaker.GetBreaker(w.name)
-		} else {
-			w.b = breaker.NewBreaker(breaker.WithName(w.name))
+	for k, x := range ws {
+		if fu.lazy[k] {
+			runCounter++
+			x.name = fmt.Sprintf("c01-breaker-%d", runCounter)
+			x.byName = true
+			continue
 		}
-		if time.Now().Equal(a) {
-			w.t0 = a
-			break
-		}
-		if try == 8 {
-			r.Probe("creation-always-stalled")
-			return
+		// creation must be an instant (the slots are aligned to it)
+		for try := 0; ; try++ {
+			runCounter++
+			x.name = fmt.Sprintf("c01-breaker-%d", runCounter)
+			a := time.Now()
+			if registry {
+				x.b = breaker.GetBreaker(x.name)
+			} else {
+				x.b = breaker.NewBreaker(breaker.WithName(x.name))
+			}
+			if time.Now().Equal(a) {
+				x.t0 = a
+				break
+			}
+			if try == 8 {
+				r.Probe("creation-always-stalled")
+				return
+			}
 		}
 	}
 	if r.Tracing() {
@@ -427,6 +477,7 @@ func body(r *simrt.Run, tier string) {
 			}
 			r.Logf("phase %d: %s gap=%v failPct=%d profile=%d clients=%d calls=%d", i, phaseNames[ph.kind], ph.gap, ph.failPct, ph.profile, len(ph.plans), n)
 		}
+		r.Logf("first use: mode=%d created-by-first-use=%v holders=%v noise=%d/%d", fu.mode, fu.lazy, fu.holders, fu.noise, fu.noiseN)
 	}
 	var descr []string
 	total := 0
@@ -446,8 +497,22 @@ func body(r *simrt.Run, tier string) {
 		}
 		first += fmt.Sprintf(" %s/ctx%d/%s/dur=%v/think=%+v;", entryNames[p.entry], p.ctx, outcomeNames[p.outcome], p.dur, p.think)
 	}
-	r.Sample(map[string]any{"registry_functions": registry, "phases": descr, "calls": total, "first_calls": first})
+	sample := map[string]any{"registry_functions": registry, "phases": descr, "calls": total, "first_calls": first}
+	if fu.mode > 0 {
+		sample["names_created_by_first_use"] = fmt.Sprintf("mode=%d names(main, side...)=%v clients-keeping-GetBreaker-result=%v registry-noise=%d", fu.mode, fu.lazy, fu.holders, fu.noise)
+	}
+	r.Sample(sample)
 
+	settleAll := func(where string) {
+		for k, x := range ws {
+			x.settle()
+			if k == 0 {
+				x.checkAccounting(where)
+			} else {
+				x.checkAccounting(fmt.Sprintf("%s, side name %d", where, k))
+			}
+		}
+	}
 	for pi, ph := range phases {
 		if r.Failed() {
 			return
@@ -459,35 +524,52 @@ func body(r *simrt.Run, tier string) {
 		if len(ph.plans) == 1 {
 			for i := range ph.plans[0] {
 				p := &ph.plans[0][i]
-				w.doThink(p.think)
-				w.call(p)
-				w.settle()
-				w.checkAccounting(fmt.Sprintf("after call %d", len(w.calls)-1))
+				x := ws[p.ident]
+				x.doThink(p.think)
+				x.call(p)
+				x.settle()
+				x.checkAccounting(fmt.Sprintf("after call %d of name %d", len(x.calls)-1, p.ident))
 				if r.Failed() {
 					return
 				}
 			}
 		} else {
+			firstUse := pi == 0 && fu.anyLazy()
+			if firstUse {
+				beginFirstUse(ws)
+			}
 			var tasks []*simrt.Task
 			for ci := range ph.plans {
 				ps := ph.plans[ci]
 				tasks = append(tasks, r.Go(fmt.Sprintf("client%d", ci), func() {
+					if firstUse {
+						fu.takeHolders(r, ws, ci)
+					}
 					for i := range ps {
 						if r.Failed() {
 							return
 						}
-						w.doThink(ps[i].think)
-						w.call(&ps[i])
+						x := ws[ps[i].ident]
+						x.doThink(ps[i].think)
+						x.call(&ps[i])
 					}
 				}))
+			}
+			if firstUse && fu.noise > 0 {
+				tasks = append(tasks, r.Go("registry-noise", fu.noiseTask(r, w.name)))
 			}
 			if !r.JoinTimeout(12*time.Hour, tasks...) {
 				r.Fail("stuck", "phase %d: calls did not return: %v", pi, r.AliveTasks())
 				return
 			}
 			r.Probe("concurrent-phase")
-			w.settle()
-			w.checkAccounting(fmt.Sprintf("after concurrent phase %d", pi))
+			if firstUse {
+				resolveFirstUse(r, ws)
+				if ph.kind == phSustained {
+					r.Probe("first-use-sustained-failure")
+				}
+			}
+			settleAll(fmt.Sprintf("after concurrent phase %d", pi))
 		}
 		if r.Failed() {
 			return
@@ -499,10 +581,18 @@ func body(r *simrt.Run, tier string) {
 	// the window empties
 	if t.Chance(1, 4) {
 		r.Sleep(time.Duration(t.Range(9500, 10500)) * time.Millisecond)
-		w.checkAccounting("after the final pause")
+		for _, x := range ws {
+			x.checkAccounting("after the final pause")
+		}
 	}
-	if w.nRejected > 0 {
-		r.Probe("rejections-seen")
+	for _, x := range ws {
+		if x.nRejected > 0 {
+			r.Probe("rejections-seen")
+			break
+		}
+	}
+	if len(ws) > 1 {
+		r.Probe("first-use-side-names")
 	}
 	if len(phases) > 0 && total > 0 {
 		r.Probe("nontrivial")
